@@ -50,3 +50,10 @@ func verifAuthOptRoundTrip(authOpt *slayers.EndToEndOption, spi uint32, algo uin
 //@   trusted
 //@ func UseMockKeys
 //@   trusted
+
+// ---- SCION/UDP socket under QUIC (NTS-KE over SCION): receive side. Whatever packet the parser delivers, readPkt
+// returns a datagram, skips the packet or reports a socket error (no crash) ----
+//@ func (*baseConn).readPkt
+//@   noframe
+//@   requires c != nil && c.raw != nil
+//@   noerror scionLayer.Path.SerializeTo
